@@ -1,7 +1,7 @@
 (* C03 - Parallel backends see isolated requests; processing is data-race free.
    Only theorem statements, each closed by an exact lemma, and Print Assumptions. *)
 Require Import Verif.Common.Base Verif.Common.Heap.
-Require Import Verif.Model.C03 Verif.Spec.C03 Verif.Proof.C03 Verif.Proof.C03_rf Verif.Proof.C03_iso Verif.Proof.C03_scope.
+Require Import Verif.Model.C03 Verif.Spec.C03 Verif.Proof.C03 Verif.Proof.C03_rf Verif.Proof.C03_iso Verif.Proof.C03_scope Verif.Proof.C03_lines.
 
 (* The fork tree of EVERY endpoint configuration (any number of backends, any filter lists,
    GraphQL options, methods, concurrent_calls) and EVERY client request in the scope of the
@@ -119,6 +119,33 @@ Theorem C03_model_meets_oracle : forall cfg q, spec_b (model_obs cfg q) false = 
 Proof. exact model_meets_oracle. Qed.
 Print Assumptions C03_model_meets_oracle.
 
+(* The access summaries of Request.Clone, CloneRequest (with CloneRequestHeaders/Params), the
+   header and query-string filters and the request builder are SOUND with respect to their
+   line-level models (Model/C03.v: events on struct field slots, map headers, map entries,
+   value-slice backing arrays, readers): every event is covered by a summary access to the
+   object its location belongs to, a write by a write. *)
+Theorem C03_summary_sound_clone : forall s c, covers (clone_lines s c) (fst (shallow_clone c s)).
+Proof. exact clone_covered. Qed.
+Print Assumptions C03_summary_sound_clone.
+Theorem C03_summary_sound_clonerequest : forall own st ss so s,
+  covers (clonerequest_lines own st ss so s) (fst (fst (deep_clone own st ss so s))).
+Proof. exact clonerequest_covered. Qed.
+Print Assumptions C03_summary_sound_clonerequest.
+Theorem C03_summary_sound_filters : forall own st f n allow s,
+  covers (filter_lines own st f n allow s) (fst (filter_stage own st f allow s)).
+Proof. exact filter_covered. Qed.
+Print Assumptions C03_summary_sound_filters.
+Theorem C03_summary_sound_builder : forall b s, covers (builder_lines s) (fst (rb_stage b s)).
+Proof. exact builder_covered. Qed.
+Print Assumptions C03_summary_sound_builder.
+(* what soundness buys: when the summaries of two pipelines do not conflict, no two of their
+   line-level events touch the same memory location with a write among them *)
+Theorem C03_no_location_conflict : forall f1 f2 c1 c2,
+  covers f1 c1 -> covers f2 c2 -> no_conflict obj_eqb c1 c2 = true ->
+  forall e1 e2, In e1 f1 -> In e2 f2 -> floc e1 = floc e2 -> is_fw e1 = false /\ is_fw e2 = false.
+Proof. exact covered_no_conflict. Qed.
+Print Assumptions C03_no_location_conflict.
+
 (* Not a theorem (kept for the record): C03_race_free_classification :
    race_free_b cfg q = true <-> in_scope cfg q = true.  The "if" direction is C03_all_configs;
    "only if" fails for backends whose pipeline stops before touching the body, e.g. two
@@ -188,3 +215,10 @@ Example C03_ex_close_of_shared_body_is_a_conflict :
   race_free obj_eqb [Fork [Acc (Wr (orig FBody) VClosed)];
                      Fork (map Acc (http_stage (init_pst ex_req_get_body)))] = false.
 Proof. vm_compute. reflexivity. Qed.
+
+(* the line-level model of CloneRequest on a request with one header and a body: 36 events *)
+Example C03_ex_clonerequest_lines :
+  List.length (clonerequest_lines (WAt 0 0) SConc (SConcSrc 0) WEnd (init_pst ex_req_body)) = 36 /\
+  existsb (fun e => match e with FW (LElems (Ob (WAt 0 0) SConc FVals) "X-A") => true | _ => false end)
+          (clonerequest_lines (WAt 0 0) SConc (SConcSrc 0) WEnd (init_pst ex_req_body)) = true.
+Proof. vm_compute. split; reflexivity. Qed.
